@@ -17,6 +17,7 @@ import IsoVerif.Driver.C03
 import IsoVerif.Driver.C16
 import IsoVerif.Driver.C12
 import IsoVerif.Driver.C07
+import IsoVerif.Driver.C11
 
 namespace IsoVerif.Driver
 
@@ -42,5 +43,6 @@ def allOps : List (String × Handler) :=
   ++ prefixOps "C16" C16.ops
   ++ prefixOps "C12" C12.ops
   ++ prefixOps "C07" C07.ops
+  ++ prefixOps "C11" C11.ops
 
 end IsoVerif.Driver
